@@ -520,10 +520,9 @@ impl<H: Hal, T: Transport> VirtIOSound<H, T> {
         let mut statuses: [VirtIOSndPcmStatus; QUEUE_SIZE as usize] =
             array::from_fn(|_| Default::default());
         let mut tokens = [0; QUEUE_SIZE as usize];
-        // The next element of `statuses` and `tokens` to use for adding to the queue.
-        let mut head = 0;
-        // The next element of `statuses` and `tokens` to use for popping the queue.
-        let mut tail = 0;
+        // The number of elements of `buffers`, `statuses` and `tokens` which are in the queue. Those
+        // are the ones for which `buffers` has a value.
+        let mut in_flight = 0;
         // Set once the device has reported an error for a buffer. No more buffers are added after
         // that, but the buffers still in the queue refer to `statuses` and `stream_id_bytes` on
         // this stack frame, so they must all be popped before returning.
@@ -532,51 +531,52 @@ impl<H: Hal, T: Transport> VirtIOSound<H, T> {
         loop {
             if failed {
                 // Only wait for the buffers which are already in the queue.
-                if head == tail {
+                if in_flight == 0 {
                     break;
                 }
             } else if self.tx_queue.available_desc() >= 3 {
                 // Add as buffers to the TX queue if possible. 3 descriptors are required for the 2
                 // input buffers and 1 output buffer.
-                if let Some(buffer) = remaining_buffers.next() {
-                    // SAFETY: The buffers being added to the queue are non-empty and are not
-                    // accessed before the corresponding call to `pop_used`.
-                    tokens[head] = unsafe {
-                        self.tx_queue.add(
-                            &[&stream_id_bytes, buffer],
-                            &mut [statuses[head].as_mut_bytes()],
-                        )?
-                    };
-                    if self.tx_queue.should_notify() {
-                        self.transport.notify(TX_QUEUE_IDX);
+                if let Some(slot) = buffers.iter().position(Option::is_none) {
+                    if let Some(buffer) = remaining_buffers.next() {
+                        // SAFETY: The buffers being added to the queue are non-empty and are not
+                        // accessed before the corresponding call to `pop_used`.
+                        tokens[slot] = unsafe {
+                            self.tx_queue.add(
+                                &[&stream_id_bytes, buffer],
+                                &mut [statuses[slot].as_mut_bytes()],
+                            )?
+                        };
+                        if self.tx_queue.should_notify() {
+                            self.transport.notify(TX_QUEUE_IDX);
+                        }
+                        buffers[slot] = Some(buffer);
+                        in_flight += 1;
+                    } else if in_flight == 0 {
+                        break;
                     }
-                    buffers[head] = Some(buffer);
-                    head += 1;
-                    if head >= usize::from(QUEUE_SIZE) {
-                        head = 0;
-                    }
-                } else if head == tail {
-                    break;
                 }
             }
-            if self.tx_queue.can_pop() {
+            if let Some(token) = self.tx_queue.peek_used() {
+                // The device may use the buffers in any order, so find the one it has used.
+                let slot = (0..usize::from(QUEUE_SIZE))
+                    .find(|&slot| buffers[slot].is_some() && tokens[slot] == token)
+                    .ok_or(Error::WrongToken)?;
                 // SAFETY: The same buffers passed to `add` are passed to `pop_used` by using
-                // `tail` to get the corresponding items from `tokens`, `buffers`, and
+                // `slot` to get the corresponding items from `tokens`, `buffers`, and
                 // `statuses`.
                 unsafe {
                     self.tx_queue.pop_used(
-                        tokens[tail],
-                        &[&stream_id_bytes, buffers[tail].unwrap()],
-                        &mut [statuses[tail].as_mut_bytes()],
+                        token,
+                        &[&stream_id_bytes, buffers[slot].unwrap()],
+                        &mut [statuses[slot].as_mut_bytes()],
                     )?;
                 }
-                if statuses[tail].status != CommandCode::SOk.into() {
+                if statuses[slot].status != CommandCode::SOk.into() {
                     failed = true;
                 }
-                tail += 1;
-                if tail >= usize::from(QUEUE_SIZE) {
-                    tail = 0;
-                }
+                buffers[slot] = None;
+                in_flight -= 1;
             }
             #[cfg(virtio_drivers_verif)]
             crate::verif::spin(crate::verif::SPIN_SOUND_PCM_XFER);
